@@ -261,6 +261,12 @@ type c15wScenario struct {
 	// PreQuick and PreThorough are the preemption bounds of the two tiers; a
 	// negative bound means that the scenario does not run in that tier.
 	PreQuick, PreThorough int
+	// FailedWrites is the number of sequential Writes that precede the
+	// concurrent writers on the same FileSystem while the log path is a
+	// symbolic link to /dev/full: the open succeeds, write(2) fails with
+	// ENOSPC, Write must return an error and leave no line.  The link is
+	// removed before the writers start.
+	FailedWrites int
 	// Prelude lists entries that are written sequentially and successfully on
 	// the same FileSystem before the concurrent writers start; their lines
 	// belong into the file as well.
@@ -296,6 +302,17 @@ func init() {
 	c15wScenarios = append(c15wScenarios,
 		c15wScenario{Name: "big4k-2w-1+1", Prelude: []int{8}, Writers: [][]int{{0}, {1}}, PreQuick: 2, PreThorough: 3},
 		c15wScenario{Name: "big1100+4k-2w-2+1", Prelude: []int{7, 8}, Writers: [][]int{{0, 2}, {1}}, PreQuick: -1, PreThorough: 3},
+	)
+}
+
+// A failed write(2) after a successful open FOLLOWED by concurrent writers.
+func init() {
+	c15wScenarios = append(c15wScenarios,
+		c15wScenario{Name: "fw1-2w-1+1", FailedWrites: 1, Writers: [][]int{{0}, {1}}, PreQuick: 2, PreThorough: 3},
+		c15wScenario{Name: "fw2-2w-2+1", FailedWrites: 2, Writers: [][]int{{0, 2}, {1}}, PreQuick: 2, PreThorough: 3},
+		c15wScenario{Name: "fw1-2w-2+2", FailedWrites: 1, Writers: [][]int{{0, 2}, {1, 3}}, PreQuick: 2, PreThorough: 3},
+		c15wScenario{Name: "fw1-3w-1+1+1", FailedWrites: 1, Writers: [][]int{{0}, {1}, {2}}, PreQuick: -1, PreThorough: 3},
+		c15wScenario{Name: "fw2-3w-2+1+1", FailedWrites: 2, Writers: [][]int{{0, 3}, {1}, {2}}, PreQuick: -1, PreThorough: 2},
 	)
 }
 
@@ -338,6 +355,20 @@ func c15wSetup(sc c15wScenario, s *xsched.Sched) (env *c15wEnv) {
 	}
 	if err := os.MkdirAll(sub, 0o755); err != nil {
 		vrt.Fatalf("mkdir: %v", err)
+	}
+	if sc.FailedWrites > 0 {
+		if err := os.Symlink("/dev/full", env.path); err != nil {
+			vrt.Fatalf("symlink: %v", err)
+		}
+		for k := 0; k < sc.FailedWrites; k++ {
+			si := c15wFailedOpenSpecs[k%len(c15wFailedOpenSpecs)]
+			if err := l.Write(ctx, c15wSpecs[si].entry()); err == nil {
+				env.pre = append(env.pre, fmt.Sprintf("prelude Write %d (entry %d) returned nil although the log path leads to /dev/full, where every write fails with ENOSPC", k+1, si))
+			}
+		}
+		if err := os.Remove(env.path); err != nil {
+			vrt.Fatalf("remove link: %v", err)
+		}
 	}
 	for _, si := range sc.Prelude {
 		if err := l.Write(ctx, c15wSpecs[si].entry()); err != nil {
@@ -525,11 +556,17 @@ func TestVerifC15File(t *testing.T) {
 	}
 	if r.ShouldRun() {
 		shard, nshards := r.NShards()
+		devFull, devFullWhy := c15fDevFull()
 		var names []string
 		ji := 0
 		for si, sc := range c15wScenarios {
 			pre := vrt.Pick(r, sc.PreQuick, sc.PreThorough)
 			if pre < 0 {
+				continue
+			}
+			if sc.FailedWrites > 0 && !devFull {
+				r.Note("file scenario %s SKIPPED: /dev/full is not usable in this sandbox (%s)", sc.Name, devFullWhy)
+
 				continue
 			}
 			names = append(names, fmt.Sprintf("%s(preemptions<=%d)", sc.Name, pre))
